@@ -292,6 +292,9 @@ func c10Worker(c *mc.Ctx) {
 		f := f
 		lf = append(lf, lfam{"modes-" + f.name, f.sp.Size(), f.sp.Get, 20000, anySpec})
 	}
+	// repetitions of sequences of nullable terms: cycles of epsilon edges in the NFA
+	nl := nullableLoopSpecs(c.Quick())
+	lf = append(lf, lfam{"nullable-loops", int64(len(nl)), func(i int64) *lexref.Spec { return nl[i] }, 0, anySpec})
 	for _, f := range lf {
 		n := f.size
 		if f.limit > 0 && f.limit < n {
